@@ -59,6 +59,11 @@ add("C13", MC,
     "Trusted: refimpl::settings. Values >= 2^62: clean refusal or saturation accepted. Repeated unknown identifiers: ignore or reject both accepted.",
     "exhaustive enumeration of configurations and received payloads on the implementation over a deterministic in-memory transport, reference-model oracle", "dfs", "DESIGN.md 5/C13")
 
+add("C12", EX,
+    "Complete enumeration of a product grid of field sections (present/absent/invalid/duplicated/contradictory pseudo-header fields, Host, an undefined pseudo name, regular fields over valid and invalid names x values) injected as requests, responses and trailers into a real server/client over simnet, and of the message alphabet through the sending API with the HEADERS frames decoded by an independent QPACK decoder. Gate property: nothing the three-valued reference predicate calls malformed is ever delivered; every refusal is the stream error H3_MESSAGE_ERROR without a connection error.",
+    "Trusted: refimpl::fields (the property's list, three-valued), refimpl::qpack literal encoder/decoder. Not demanded: acceptance of every well-formed section.",
+    "exhaustive enumeration of a bounded input grid on the implementation over a deterministic in-memory transport, reference-predicate oracle", "enumeration", "DESIGN.md 5/C12")
+
 ALL = [f"C{i:02d}" for i in range(1, 21)]
 pending_reason = "check not built yet in this revision of /verif (planned, see DESIGN.md section 5)"
 manifest = dict(
